@@ -205,12 +205,15 @@ def stdio_race(r, n):
                 open(os.path.join(root, p), "w").write(t)
             c = lsp.Client(core.SERVER_BIN, root, wait_scan=not race)
             try:
+                # which rotation of a dependency cycle is reported, and at which fixture, depends on the
+                # HashMap iteration order of the process (C16's root-order finding): not compared here
+                nocyc = lambda ds: [x for x in ds if x.get("code") != "circular-dependency"]
                 if race:
                     c.open(F, b1)
                     c.wait_log("Workspace scan complete", timeout=60)
-                    d = stdio.diag_str(c.change(F, b3))
+                    d = stdio.diag_str(nocyc(c.change(F, b3)))
                 else:
-                    d = stdio.diag_str(c.open(F, b3))
+                    d = stdio.diag_str(nocyc(c.open(F, b3)))
                 out = [d, stdio.ask(c, "symbols", [F]), stdio.ask(c, "lens", [F])]
                 for (name, line) in news_of_text(b3):
                     out.append(stdio.ask(c, "references", [F, line - 1, 4]))
